@@ -2,10 +2,11 @@
    oracles of this property rest on, regenerated from /repo on every run, equal the reviewed ones:
      - group wiring (which output feeds which input, as OpenMDAO resolves it) of the canonical models of: AeroPoint
      - unit contract (declared units of every input / output) of the classes in: aerodynamics, functionals
-   An edit that re-wires a group or drops / changes a unit in these areas breaks the obligation; the oracles of the property
-   then look for the failing input. *)
+     - option defaults of the classes in: aerodynamics, functionals
+   An edit that re-wires a group, drops / changes a unit or changes a default in these areas breaks the obligation; the oracles of
+   the property then look for the failing input. *)
 From Coq Require Import String List Bool.
-From OAS Require Import Wiring WiringReviewed IOUnits IOUnitsReviewed Tie_wiring_AeroPoint Tie_units_aerodynamics Tie_units_functionals.
+From OAS Require Import Wiring WiringReviewed IOUnits IOUnitsReviewed OptionDefaults OptionDefaultsReviewed Tie_wiring_AeroPoint Tie_units_aerodynamics Tie_units_functionals Tie_options_aerodynamics Tie_options_functionals.
 Import ListNotations.
 
 Theorem C06_wiring_of_AeroPoint_models_is_the_reviewed_one :
@@ -22,3 +23,13 @@ Theorem C06_unit_contract_of_functionals_is_the_reviewed_one :
   units_dir_functionals gen_io_units = units_dir_functionals reviewed_io_units /\ units_dir_functionals reviewed_io_units <> [].
 Proof. split; [exact units_functionals_reviewed | exact units_functionals_nonempty]. Qed.
 Print Assumptions C06_unit_contract_of_functionals_is_the_reviewed_one.
+
+Theorem C06_option_defaults_of_aerodynamics_are_the_reviewed_ones :
+  options_dir_aerodynamics gen_option_defaults = options_dir_aerodynamics reviewed_option_defaults /\ options_dir_aerodynamics reviewed_option_defaults <> [].
+Proof. split; [exact options_aerodynamics_reviewed | exact options_aerodynamics_nonempty]. Qed.
+Print Assumptions C06_option_defaults_of_aerodynamics_are_the_reviewed_ones.
+
+Theorem C06_option_defaults_of_functionals_are_the_reviewed_ones :
+  options_dir_functionals gen_option_defaults = options_dir_functionals reviewed_option_defaults /\ options_dir_functionals reviewed_option_defaults <> [].
+Proof. split; [exact options_functionals_reviewed | exact options_functionals_nonempty]. Qed.
+Print Assumptions C06_option_defaults_of_functionals_are_the_reviewed_ones.
